@@ -159,7 +159,11 @@ def text_forward(asm, acc, m, tup, alias=False, expr=False):
         rng = random.Random('c02-expr-%s-%r' % (m, tup))
         for k, (kind, a) in enumerate(zip(operands.FORMATS[m], tup)):
             if (isinstance(kind, tuple) or kind in ('cupper', 'nzshamt')) and isinstance(a, int):
-                ops[k] = exprs.spell_value(rng, a)
+                if 33 <= a <= 126 and chr(a) not in "'\\" and rng.random() < 0.5:
+                    ops[k] = "'%s'" % chr(a)           # a character literal is an integer too
+                    acc['ctr']['text_character_literal_operands'] += 1
+                else:
+                    ops[k] = exprs.spell_value(rng, a)
                 acc['ctr']['text_expression_operands'] += 1
     line = m + (' ' + ', '.join(ops) if ops else '')
     if expr or alias:
